@@ -47,8 +47,20 @@
 (*     model refuses and leaves the position unchanged.                    *)
 (* Refusals of pycdlib are PyCdlibInvalidInput instead of ValueError: a    *)
 (* documented deviation (the library reports every misuse that way).       *)
+(*                                                                         *)
+(* Files that carry an El Torito boot info table (TableFiles): the content *)
+(* of such a file - for EVERY reader, before and after the image is        *)
+(* written - is the content it was added with, with the 56-byte table laid *)
+(* over bytes 8..63 and CUT AT THE END OF THE FILE (StreamContent.tla; a   *)
+(* boot file of 20 bytes has 20 bytes: 8 of its own and the first 12 of    *)
+(* the table).  These are the bytes the written image holds at the file's  *)
+(* extent.  Nothing else is special about these files: all the rules of    *)
+(* this module apply to them unchanged, positions are positions in the     *)
+(* overlaid content.  (Judge_StreamContent lets TLC check that the content *)
+(* the recorded reads are located in is Overlaid(...) and is what the      *)
+(* written image holds.)                                                   *)
 (***************************************************************************)
-EXTENDS Integers, Sequences, FiniteSets, TLC
+EXTENDS Integers, Sequences, FiniteSets, TLC, StreamContent
 
 CONSTANTS Files,            \* file ids (strings)
           LenOf,            \* [Files -> Nat]  length in units
@@ -58,7 +70,8 @@ CONSTANTS Files,            \* file ids (strings)
           IntoSizes(_),     \* L |-> set of buffer sizes tried by ReadInto
           SeekOffsets(_),   \* L |-> set of offsets tried by Seek
           Whences,          \* set of whence values tried by Seek
-          BlockLabels       \* abstract block sizes of Extract: "1","7","2048","8192","L","L1"
+          BlockLabels,      \* abstract block sizes of Extract: "1","7","2048","8192","L","L1"
+          TableFiles        \* the files that carry a boot info table (subset of Files)
 
 VARIABLES fpos, streams, last
 
@@ -192,6 +205,7 @@ Spec == Init /\ [][Next]_svars
 (* What TLC checks on the model itself                                     *)
 (***************************************************************************)
 TypeOK ==
+    /\ TableFiles \subseteq Files
     /\ fpos.file \in Files \cup {NoFile} /\ fpos.off \in Nat
     /\ \A s \in Sids : /\ streams[s].st \in {"new", "open", "closed"}
                        /\ streams[s].off \in Nat
